@@ -211,6 +211,81 @@ Theorem C03_sound_needs_aggs_wf :
 Proof. exact c03w_needs_aggs_wf. Qed.
 Print Assumptions C03_sound_needs_aggs_wf.
 
+(* COMPLETE, hence EXACT, WITH SHARING PROVIDERS (Proofs/C03x.v) whenever the code model answers with a candidate list and
+   two computable conditions hold:
+     in_tree_hyp q d         no sharing provider lying in the tree named by in_tree of the unsuffixed group shares with
+                             another tree (excludes the in_tree pin, C03_refuted_in_tree_pin);
+     forbidden_aggs_hyp q d  no root of a tree that a sharing provider shares with - other than its own - is in a forbidden
+                             aggregate (member_of=!agg) of the unsuffixed group (excludes a FOURTH corner found while proving
+                             this: the code tests forbidden aggregates on the anchor root too, C03_needs_forbidden_aggs_hyp).
+   The two other corners need no condition: there the model does not answer with a list (COrderDependent for the anchor
+   de-duplication, CKeyError for a nested sharing provider; C03_corners_excluded_by_answer).  A brute-force comparison over
+   two reachable tables with sharing providers (13888 queries each) found no omission outside these four corners. *)
+From PV Require Import Proofs.C03x.
+Theorem C03_exact_sharing : forall v q d a s,
+  rps_wf d -> parentless_root d -> cap_ok d -> aggs_wf d -> un_rcs_nodup q -> anchors_hyp q d ->
+  in_tree_hyp q d = true -> forbidden_aggs_hyp q d = true ->
+  candidates v q d = COk a s ->
+  (forall c, In c a -> exists c', In c' (map (creq_view v) (spec_candidates v q d)) /\ same_creq c c' = true) /\
+  (forall c', In c' (map (creq_view v) (spec_candidates v q d)) -> exists c, In c a /\ same_creq c c' = true).
+Proof. exact c03_exact_sharing. Qed.
+Print Assumptions C03_exact_sharing.
+
+(* the converse inclusion alone needs neither aggs_wf nor any condition on capacities *)
+Theorem C03_complete_sharing : forall v q d a s,
+  rps_wf d -> parentless_root d -> un_rcs_nodup q -> anchors_hyp q d ->
+  in_tree_hyp q d = true -> forbidden_aggs_hyp q d = true ->
+  candidates v q d = COk a s ->
+  forall c', In c' (map (creq_view v) (spec_candidates v q d)) -> exists c, In c a /\ same_creq c c' = true.
+Proof. exact c03_complete_sharing. Qed.
+Print Assumptions C03_complete_sharing.
+
+(* in every state reached by well-formed requests only the conditions on the query and the sharing providers remain *)
+Theorem C03_exact_sharing_reachable : forall cf l v q a s,
+  reqs_wf l -> un_rcs_nodup q ->
+  in_tree_hyp q (run cf db0 l) = true -> forbidden_aggs_hyp q (run cf db0 l) = true ->
+  candidates v q (run cf db0 l) = COk a s ->
+  (forall c, In c a -> exists c', In c' (map (creq_view v) (spec_candidates v q (run cf db0 l))) /\ same_creq c c' = true) /\
+  (forall c', In c' (map (creq_view v) (spec_candidates v q (run cf db0 l))) -> exists c, In c a /\ same_creq c c' = true).
+Proof. exact c03_exact_sharing_reachable. Qed.
+Print Assumptions C03_exact_sharing_reachable.
+
+(* necessity of forbidden_aggs_hyp: reachable table cn (1: VCPU, aggregates 1 and 2), ss (2: DISK_GB, sharing, aggregate 2);
+   resources=DISK_GB:1&member_of=!<agg 1>&resources1=VCPU:1 and resources=DISK_GB:1&member_of=!<agg 1>&root_required=!MISC_SHARES_VIA_AGGREGATE
+   at 1.39: the specification has one candidate, the code none *)
+Theorem C03_needs_forbidden_aggs_hyp :
+  reachable (mkCfg 0 0) fa_db /\ db_hyps fa_db /\
+  (un_rcs_nodup fa_query2 /\ anchors_hyp fa_query2 fa_db /\ in_tree_hyp fa_query2 fa_db = true /\
+   forbidden_aggs_hyp fa_query2 fa_db = false /\
+   candidates 39 fa_query2 fa_db = COk [] [] /\
+   spec_candidates 39 fa_query2 fa_db = [mkCreq (-1) [mkRreq 2 2 1; mkRreq 1 0 1] [(0, [2]); (1, [1])]]) /\
+  (un_rcs_nodup fa_query1 /\ anchors_hyp fa_query1 fa_db /\ in_tree_hyp fa_query1 fa_db = true /\
+   forbidden_aggs_hyp fa_query1 fa_db = false /\
+   candidates 39 fa_query1 fa_db = COk [] [] /\
+   spec_candidates 39 fa_query1 fa_db = [mkCreq (-1) [mkRreq 2 2 1] [(0, [2])]]).
+Proof. exact c03x_needs_forbidden_aggs_hyp. Qed.
+Print Assumptions C03_needs_forbidden_aggs_hyp.
+
+Theorem C03_needs_in_tree_hyp :
+  let d := run cf0 db0 it_ops in
+  db_hyps d /\ un_rcs_nodup it_query /\ anchors_hyp it_query d /\
+  in_tree_hyp it_query d = false /\ forbidden_aggs_hyp it_query d = true /\
+  candidates 39 it_query d = COk [] [] /\
+  spec_candidates 39 it_query d = [mkCreq (-1) [mkRreq 2 2 1; mkRreq 1 0 1] [(0, [2]); (1, [1])]].
+Proof. exact c03x_needs_in_tree_hyp. Qed.
+Print Assumptions C03_needs_in_tree_hyp.
+
+Theorem C03_corners_excluded_by_answer :
+  (let d := run cf0 db0 ad_ops in
+   db_hyps d /\ in_tree_hyp ad_query d = true /\ forbidden_aggs_hyp ad_query d = true /\
+   candidates 39 ad_query d = COrderDependent 1 /\ lenZ (spec_candidates 39 ad_query d) = 2) /\
+  (let d := run cf0 db0 ke_ops in
+   db_hyps d /\ in_tree_hyp ke_query d = true /\ forbidden_aggs_hyp ke_query d = true /\
+   candidates 39 ke_query d = CKeyError /\
+   spec_candidates 39 ke_query d = [mkCreq (-1) [mkRreq 1 0 1; mkRreq 3 2 1] [(0, [1; 3])]]).
+Proof. exact c03x_corners_excluded_by_answer. Qed.
+Print Assumptions C03_corners_excluded_by_answer.
+
 (* REFUTED: the faithful model omits valid candidates *)
 (* 1. a sharing provider reachable from several anchors: the per-group result is a SET of allocation requests
       whose equality ignores the anchor, so one anchor survives and merges under the others are lost *)
